@@ -119,6 +119,15 @@ func (r *LayerManager) cacheLayer(refspec reference.Spec, tocDigest digest.Diges
 	if r.layer[refspec.String()] == nil {
 		r.layer[refspec.String()] = make(map[string]layer.Layer)
 	}
+	// Record the successful resolution of this layer under the lock that protects r.layer. If it were recorded
+	// later, a release in between would drop the layer and leave it marked as resolved; it couldn't be looked up again.
+	if r.resolveLayerCache == nil {
+		r.resolveLayerCache = make(map[string]map[string]error)
+	}
+	if r.resolveLayerCache[refspec.String()] == nil {
+		r.resolveLayerCache[refspec.String()] = make(map[string]error)
+	}
+	r.resolveLayerCache[refspec.String()][l.Info().Digest.String()] = nil
 	if cl, ok := r.layer[refspec.String()][tocDigest.String()]; ok && cl.Info().TOCDigest == tocDigest {
 		return cl, false // already exists
 	}
@@ -236,6 +245,9 @@ func (r *LayerManager) resolveLayer(ctx context.Context, refspec reference.Spec,
 	}
 	r.mu.Unlock()
 	defer func() {
+		if retErr == nil {
+			return // already recorded by cacheLayer
+		}
 		r.mu.Lock()
 		if r.resolveLayerCache == nil {
 			r.resolveLayerCache = make(map[string]map[string]error)
